@@ -32,7 +32,8 @@ def imp(src, tag):
         print("imported", dst.name)
 
 
-def run(bid, props, wt="/tmp/wt-benign", jobs=6):
+def run(bid, props, wt=None, jobs=6):
+    wt = wt or f"/tmp/wt-benign-{bid}"
     d = BEN / bid
     meta = json.loads((d / "meta.json").read_text())
     head = sh("git -C /repo rev-parse HEAD").stdout.strip()
